@@ -125,6 +125,9 @@ def gen_cases(rng, n):
             gid = "noise"
         cases.append({"gid": gid, "kind": kind, "text": text, "limits": rng.choice([None, None, TIGHT]),
                       "ncalls": rng.randint(4, 16), "seed": rng.randrange(1 << 30), "secs": 30})
+        if rng.random() < 0.45:
+            # also through the TokenParser session (process_prompt, rollbacks into the prompt, reset, ff tokens)
+            cases[-1]["tp"] = 1
     return cases
 
 
